@@ -8,7 +8,7 @@ ID = "C17"
 RULE = ("E-FULL: every day of the tier's year set (quick: 1900, 1999-2004, 2100, 2200; thorough: every day 1900-2200) at 3 "
         "instants x 7 units x floor/ceil/round/offset(k in {0,1,2,7,31,400}); every hour of 2000, 2021, 2100 (thorough: 10 years incl. 1900, 1969, 1970, 2038, 2200) for "
         "second/minute/hour; thorough: every k in 0..400 from each day of 12 years (1900 ... 2199). E-INPUT: range(t0,t1,dt) "
-        "for start instants around every month end/week boundary of 2019-2020 x 5 spans x dt 1..12 x 7 units (for dt 1 and 5 also through the plural aliases d3_time['days'] ...); thorough: three enumerations of more than 10^6 boundaries. Oracle R-CAL "
+        "for start instants around every month end/week boundary of 2019-2020 x 6 spans x dt 1..12, 13, 18, 25, 30, 36, 53, 61 x 7 units (for dt 1 and 5 also through the plural aliases d3_time['days'] ...); thorough: three enumerations of more than 10^6 boundaries. Oracle R-CAL "
         "(datetime/timedelta/calendar). Non-trivial: the instant is not itself a boundary / the range is non-empty.")
 ASSUMPTIONS = ["for the week unit with dt>1 only numbering-agnostic periodicity inside a year is demanded (the statement does not fix a week numbering)",
                "process time zone is UTC here; C18 owns the zone dimension"]
@@ -19,7 +19,8 @@ TODS = (timedelta(0), timedelta(hours=13, minutes=30, seconds=15, milliseconds=2
 KS = (0, 1, 2, 7, 31, 400)
 NOMINAL = {"second": timedelta(seconds=1), "minute": timedelta(minutes=1), "hour": timedelta(hours=1),
            "day": timedelta(days=1), "week": timedelta(days=7), "month": timedelta(days=30), "year": timedelta(days=365)}
-SPANS = (0, 1, 2.5, 13, 40)
+SPANS = (0, 1, 2.5, 13, 40, 130)
+DTS = tuple(range(1, 13)) + (13, 18, 25, 30, 36, 53, 61)  # also steps larger than one cycle of the unit number
 
 
 def bounds(tier, seed):
@@ -103,6 +104,17 @@ def range_case(iv, u, t0, t1, dt, plural=None):
     except Exception as e:
         return "EXC:%s.range:%s" % (u, type(e).__name__), "%s.range(%s, %s, %d) raised %r" % (u, t0, t1, dt, e)
     got = list(got)
+    # the result belongs to the caller: editing it must not change what the next identical call returns
+    try:
+        first = iv.range(t0, t1, dt)
+        first.reverse()
+        first.append(None)
+        again = list(iv.range(t0, t1, dt))
+    except Exception as e:
+        return "EXC:%s.range:%s" % (u, type(e).__name__), "second %s.range(%s, %s, %d) raised %r" % (u, t0, t1, dt, e)
+    if again != got:
+        return ("C17:%s.range-shared-result" % u, "%s.range(%s, %s, %d) returns %s... after the caller edited the list returned by "
+                "the previous identical call (before: %s...)" % (u, t0, t1, dt, [str(x) for x in again[:3]], [str(x) for x in got[:3]]))
     allb = cal.boundaries(u, t0, t1)
     if u != "week" or dt == 1:
         exp = [b for b in allb if dt == 1 or cal.number(u, b) % dt == 0]
@@ -214,7 +226,7 @@ def run_shard(shard):
                         continue
                     t1 = t0 + sp * NOMINAL[u]
                     acc.states += 1
-                    for dt in range(1, 13):
+                    for dt in DTS:
                         acc.evals += 1
                         acc.trans += 1
                         acc.counters["range_ops"] += 1
